@@ -311,14 +311,41 @@ def rule_ordered(ck, fi, hm):
         seen = explore(cfg, False, transfer, lambda t: False, edge_transfer=edge, follow_exc=False)
         pend = any(v for _f, v in seen.get(cfg.exit.id, ()))
         ck.ob(R, fi, c, not pend, "on every normal path the future returned by _handle_message is awaited unless it is None")
-    # the dispatcher hands the callback's future back for data messages
+    # the dispatcher hands the callback's future back for data messages: on every path that called the on_message
+    # callback, the value returned by _handle_message is that call's result (directly, or through result locals)
+    consts_ = X.class_consts(ck.repo, W, P13)
     ps = [p for p in hm.params() if p != "self"]
-    n_ret = 0
-    for n, c in hm.cfg.find(lambda x: q.is_call(x, "self._run_callback") and x.args and q.dotted(x.args[0]) == "self.handler.on_message"):
-        n_ret += 1
-        ok = isinstance(n.ast, ast.Return) and n.ast.value is c
-        ck.ob(R, hm, c, ok, "the future of the on_message callback is returned to _receive_frame (so that the next frame waits for it)")
+    is_cb = lambda x: q.is_call(x, "self._run_callback") and x.args and q.dotted(x.args[0]) == "self.handler.on_message"
+    n_ret = len(hm.cfg.find(is_cb))
     ck.floor(R, n_ret, 2, "on_message dispatch sites")
+
+    def ut(n, u, env):
+        called, holders, returned = u
+        if n.kind != "stmt" or not isinstance(n.ast, ast.stmt):
+            return u
+        st_ = n.ast
+        cbs = [x for x in X.node_calls_all(n) if is_cb(x)]
+        if isinstance(st_, ast.Return):
+            v = st_.value
+            if cbs and v is cbs[0]:
+                return (True, holders, "future")
+            if isinstance(v, ast.Name) and v.id in holders:
+                return (called, holders, "future")
+            return (called or bool(cbs), holders, "other")
+        if isinstance(st_, (ast.Assign, ast.AnnAssign)) and getattr(st_, "value", None) is not None:
+            tg = [t.id for t in (st_.targets if isinstance(st_, ast.Assign) else [st_.target]) if isinstance(t, ast.Name)]
+            if cbs and st_.value is cbs[0]:
+                return (True, tuple(sorted(set(holders) | set(tg))), returned)
+            if isinstance(st_.value, ast.Name) and st_.value.id in holders:
+                return (called, tuple(sorted(set(holders) | set(tg))), returned)
+            return (called or bool(cbs), tuple(h_ for h_ in holders if h_ not in tg), returned)
+        return (called or bool(cbs), holders, returned)
+
+    for v_ in DATA_OPCODES:
+        seen = X.explore_consts(hm.cfg, consts_, init_env={ps[0]: v_}, assume={"self.client_terminated": False, X.FC: False}, uinit=(False, (), None), utransfer=ut, follow_exc=False)
+        finals = [u for _e, u in X.states_at(seen, hm.cfg.exit) if u[0]]
+        ck.ob(R, hm, hm.node, bool(finals) and all(u[2] == "future" for u in finals), "opcode %d: on every path that invoked on_message, _handle_message returns that call's future to _receive_frame (so that the next frame waits for it)" % v_,
+              construct="on_message future returned op=%d: %s" % (v_, sorted({repr(u[2]) for u in finals})))
     return len(calls)
 
 
